@@ -20,8 +20,45 @@ def run(ctx):
                         sample_n=600 if quick else 10000, real_n=6000 if quick else 60000,
                         hist_budget=300000 if quick else 3000000, explore_budget=3000 if quick else 20000,
                         sync_files=["mapz/safekv.go"])
+    if not ctx.violations:
+        bulk(ctx, 4 if quick else 40)
     ctx.assumptions += ["int keys 1..4 and int values", "atomicity on the code: every lock-order interleaving of the step-level model (2x1 over 10 calls, 2x2 and 3x1 over the mutating core) is replayed on the real SafeKV under a deterministic scheduler whose sync shim turns RWMutex operations into park points; data-race freedom is an observation of the race detector on real goroutines",
                         "Map(fn) is driven with one callback (add 100 to every value and report what it saw)"]
+
+def bulk(ctx, rounds):
+    """Maps of thousands of entries (size-dependent paths): single-writer keys, real goroutines on a -race build,
+    the completed calls and the quiescent view validated by TLC against OwnedKeys.tla."""
+    rbin = ctx.go_build("safekv", name="safekv_race", race=True)
+    outd = os.path.join(ctx.out, "SafeKV")
+    os.makedirs(outd, exist_ok=True)
+    env = dict(GOENV, GORACE="halt_on_error=0 exitcode=66")
+    try:
+        rr = subprocess.run([rbin, "bulk", "-out", outd, "-rounds", str(rounds), "-seed", str(ctx.seed)], capture_output=True, text=True, env=env, timeout=900)
+    except subprocess.TimeoutExpired:
+        raise Inconclusive("large-map scenario did not finish within 900 s")
+    if "DATA RACE" in rr.stderr:
+        rep = rr.stderr[rr.stderr.index("WARNING: DATA RACE"):][:3000]
+        ctx.violation("SafeKV (large maps): the Go race detector reports a data race", {"component": "SafeKVRace", "report": rep}, key="SafeKV/race")
+        return
+    if rr.returncode != 0:
+        if "panic:" in rr.stderr and "welllog/golib/mapz" in rr.stderr:
+            ctx.violation("SafeKV (large maps): the real code crashed: %s" % rr.stderr[:400], {"component": "SafeKVBulk", "stderr": rr.stderr[:4000]}, key="SafeKV/crash")
+            return
+        raise Inconclusive("large-map scenario failed: %s" % rr.stderr[-2000:])
+    st = read_json(os.path.join(outd, "bulk_stats.json"))
+    tf = os.path.join(outd, "bulk_trace.ndjson")
+    ok, line, n = ctx.validate_trace("SafeKV", "OwnedKeys", "Owned.cfg", tf, tag="SafeKV_bulk", timeout=1800)
+    log("TLC trace validation SafeKV large maps: %d scenarios, %d events, %s" % (st["scenarios"], n, "accepted" if ok else "REJECTED at line %s" % line))
+    ctx.cov["engines"].append({"engine": "E4 real goroutines (-race), large single-writer maps", "component": "SafeKV", "scenarios": st["scenarios"], "events": n})
+    if ok:
+        ctx.cov["traces_validated_against_impl"] += st["scenarios"]
+    else:
+        with open(tf) as f:
+            for i, l in enumerate(f, 1):
+                if i == line:
+                    bad = l.strip()[:400]
+        ctx.violation("SafeKV (large maps, single-writer keys): OwnedKeys rejects event %s: %s" % (line, bad), {"component": "SafeKVBulk", "line": line, "event": bad, "note": "re-run the check"}, key="SafeKV/bulk")
+
 
 def replay(ctx, rp):
     log("replay: re-run the check: ./check C12")
